@@ -328,9 +328,9 @@ PROPS["C09"] = dict(
     partial=["typed targets: no theorem relates the slice and reader runs of the typed model; the clause (same class, positions at most "
              "one byte apart between slice and reader — the reader's error() counts the peeked byte — and str = slice exactly) is "
              "evaluated by op tt3 on the crate's outcomes and the model reproduces both positions (0 disagreements)",
-             "c09_raw_nested_sources states the agreement of SUCCESSFUL nested captures (Vec<Box<RawValue>>); for failing inputs the "
-             "error of the enclosing Vec / map is a typed-target error (positions of visitor errors may differ by the reader's peeked "
-             "byte): evaluated per case by op rawnest; map-of-RawValue captures by correspondence only",
+             "c09_raw_nested_sources / c09_raw_map_sources state the agreement of SUCCESSFUL nested captures (Vec<Box<RawValue>>, map of "
+             "Box<RawValue>); for failing inputs the error of the enclosing Vec / map is a typed-target error (positions of visitor "
+             "errors may differ by the reader's peeked byte): evaluated per case by op rawnest",
              "stream items of typed item types: not modelled (Value and IgnoredAny items are)"],
     technique="Lean 4 theorem: the byte-step machine's outcome is independent of the slice/reader source (step-wise equality + all "
               "error sites include the offending byte) + three-source differential run against the crate",
@@ -344,7 +344,7 @@ PROPS["C09"] = dict(
                "the &str source: the unread input of a stream stays valid UTF-8 after each value), c09_raw_sources (from_*::<Box<RawValue>>: "
                "identical captured span or identical error code and index from slice and reader; from &str too on valid UTF-8 input - a "
                "captured value begins and ends with an ASCII byte, so the byte sources' from_utf8 check cannot fail there), "
-               "c09_raw_nested_sources (successful Vec<Box<RawValue>> captures agree across the three sources). The crate is run on every generated input from all three "
+               "c09_raw_nested_sources / c09_raw_map_sources (successful Vec<Box<RawValue>> / map-of-RawValue captures agree across the three sources). The crate is run on every generated input from all three "
                "sources with random chunkings and the outcomes are compared with each other (spec) and with the model.",
     level_note="Trusted: Lean kernel + 3 standard axioms; extract.py; harness/driver; hand-written machine model validated by "
                "correspondence. Two genuine position defects found by this check were repaired in /repo (fix: commits 28defde, 9343bad).",
@@ -499,9 +499,9 @@ PROPS["C19"] = dict(
     assumptions=["RawValue's transmutes between str and RawValue (layout) are outside the model",
                  "struct fields captured raw (derive-generated visitor) are checked against generator-known spans (op rawelems), not modelled",
                  "to_value(RawValue) = from_str(text) is checked per case (op rawstr), not modelled"],
-    partial=["object values captured raw (BTreeMap<String, Box<RawValue>>): modelled (Model.RawNested.rawMapTop, op rawnest obj, "
-             "0 disagreements) but the span theorems (c19_nested_capture, _grammar, _canon) are proved for array elements and the top "
-             "level only",
+    partial=["object values captured raw: c19_nested_capture_map / c19_nested_grammar_map are about the entry sequence handed to the map "
+             "visitor (source order, duplicates included); what BTreeMap / IndexMap make of duplicates is C17; the converse grammar "
+             "direction and the comparison with the parsed Value (c19_nested_complete, c19_nested_canon) are proved for arrays only",
              "c19_nested_capture / c19_top_complete on byte sources take the UTF-8 validity of the element texts as hypothesis (it is "
              "what from_utf8 checks); that it follows from the UTF-8 validity of the whole input is proved for the three-source "
              "statement only (C09 c09_raw_sources)"],
@@ -516,7 +516,10 @@ PROPS["C19"] = dict(
                "ci)* ws and every ci one grammar value: each element is captured from its first to its last byte, nothing else is "
                "accepted), c19_nested_grammar / c19_nested_complete (these decompositions are the array derivations JsonText bs (arr ts) "
                "with Derives ci ti), c19_nested_canon (if the same bytes parse into a Value it is an array of as many elements and the "
-               "i-th capture parses on its own to the i-th element); c19_verbatim (a RawValue in the hole of any serializer context - seq, "
+               "i-th capture parses on its own to the i-th element); c19_nested_capture_map (a map with String keys and Box<RawValue> values "
+               "succeeds with entries (s_i, c_i) iff the input is ws { inner } ws, inner = ws or ws member (ws , ws member)* ws, member = key "
+               "literal ws : ws c, every key a well-formed literal with paired escapes decoding to s_i (valid UTF-8 on byte sources) and "
+               "every c_i one grammar value), c19_nested_grammar_map (these are object derivations JsonText bs (obj members)); c19_verbatim (a RawValue in the hole of any serializer context - seq, "
                "tuple, variants, map value, struct field, Some/newtype, nested to any depth - is handed to the writer as one buffer "
                "holding exactly its text, by the compact and every pretty formatter, and nothing else that is written depends on the "
                "text), c19_verbatim_top, c19_verbatim_bytes, c19_serR_is_ser (the extended serializer is the C03 serializer with the "
